@@ -106,7 +106,11 @@ def run_case(case, tier):
         recs = sources.random_small_structure(rng, 80, 900)
         optset = None
     else:
-        recs = build_multimodel(rng)
+        if rng.random() < 0.5:
+            recs = build_multimodel(rng)
+        else:
+            from .. import multiconf
+            recs, _d = multiconf.build(rng)       # mutants, missing atoms / residues / chains, alt-locs
         optset = rng.choice(("none", "-d", "params"))
     opts, desc, remove = pick_options(rng, recs, optset)
     text = pdbio.dump(recs)
